@@ -14,7 +14,7 @@ import (
 func init() {
 	register(Property{ID: "C15", Level: "other", Run: runC15,
 		Technique: "static analysis: field-set agreement between core.pathConfCanBeUpdated (hot-reloadable fields) and their consumers (path.doReloadConf, forward manager, rpicamera fromConf on linux/arm), must-pass-through path conditions and result-use rule on pathManager.doReloadConf (go/ssa + AST)",
-		Text:      "Decides the reconciliation skeleton of one reload: (1) the set of fields pathConfCanBeUpdated copies (hot-reloadable) is exactly the set consumed in place - Forward by forwardManager.ReloadConf, the seven Record* fields by the recorder restart condition of path.doReloadConf (set equality), the RPICamera* fields by cameraParams.fromConf reached through Handler.ReloadConf and the camera run loop (linux/arm build) - so a hot-reloaded field is never silently ignored and nothing else is treated as hot-reloadable; (2) in pathManager.doReloadConf every live path is closed when its name no longer resolves, when the configuration cannot be updated in place, when it is in confsToRecreate, or when its capture groups changed - captureGroupsEqual is decided to be an exact equality on the groups (abstract interpretation of all its paths over the bounds of len(matches): true only if both sides have no groups or slices.Equal over m[1:] said so, false only if exactly one side has groups), is applied to pa.matches and the newly resolved groups, and its negative outcome closes the path; a path moved to another configuration gets confName updated before the reload is sent; the capture groups returned by FindPathConf for the new configuration are used (not discarded); pm.pathConfs is replaced before missing static paths are created; every static configuration without a live path is created. It does not decide reconciliation over arbitrary reload histories, nor which parameters the external camera process honours.",
+		Text:      "Decides the reconciliation skeleton of one reload: (1) the set of fields pathConfCanBeUpdated copies (hot-reloadable) is exactly the set consumed in place - Forward by forwardManager.ReloadConf, the seven Record* fields by the recorder restart condition of path.doReloadConf (set equality), the RPICamera* fields by cameraParams.fromConf reached through Handler.ReloadConf and the camera run loop (linux/arm build) - so a hot-reloaded field is never silently ignored and nothing else is treated as hot-reloadable; (2) in pathManager.doReloadConf every live path is closed when its name no longer resolves, when the configuration cannot be updated in place, when it is in confsToRecreate, or when its capture groups changed - captureGroupsEqual is decided to be an exact equality on the groups (abstract interpretation of all its paths over the bounds of len(matches): true only if both sides have no groups or slices.Equal over m[1:] said so, false only if exactly one side has groups), is applied to pa.matches and the newly resolved groups, and its negative outcome closes the path; a path moved to another configuration gets confName updated before the reload is sent; the capture groups returned by FindPathConf for the new configuration are used (not discarded); pm.pathConfs is replaced before missing static paths are created; every static configuration without a live path is created; (3) a live path asks for its own idle collection (closePathIfIdle) only while the configuration it currently runs with (pa.conf, the field reloads replace) is a regular-expression configuration - tested directly or through a predicate method of core.path whose every true outcome tests it - so a path that a reload moved to a static configuration is not collected on the strength of creation-time state (pa.matches). It does not decide reconciliation over arbitrary reload histories, nor which parameters the external camera process honours.",
 		Note:      "trusted: conf.FindPathConf (C14), conf.Path.Equal; the rpicamera consumer exists only in the linux/arm build configuration and is analysed there"})
 	addMutants(
 		Mutant{"C15", "hot-field-without-consumer", "internal/core/path_manager.go",
@@ -47,12 +47,16 @@ func init() {
 }
 
 func runC15(c *Ctx) {
+	defer dumpObls(c)
 	p := c.Main()
 	if p == nil {
 		return
 	}
-	c.Explain = "E3: H = {F | `clone.F = newPathConf.F` in core.pathConfCanBeUpdated}; consumers: Forward → (*forward.Manager).ReloadConf(newConf.Forward) in path.doReloadConf; Record* → fields compared `newConf.F != oldConf.F` in path.doReloadConf (set equality with H∩Record*); RPICamera* → fields read in rpicamera.(*cameraParams).fromConf, which the camera run loop calls on params.ReloadConf (linux/arm); any other member of H except Name/Regexp is a violation. E1/E5 on pathManager.doReloadConf. groups_equal: G(m) = m[1:] if len(m) > 1, else none; every entry→return path of core.captureGroupsEqual (helpers inlined) is enumerated with interval bounds on len($0), len($1); a constant true needs both ≤ 1 (or a positive slices.Equal test), a constant false needs exactly one side ≥ 2 (or a negative test), any other result must be slices.Equal(a, b) with a, b ∈ {$k[1:], empty under len($k) ≤ 1} for k = 0 and 1; groups_equal.use: the call in doReloadConf compares pa.matches with FindPathConf(...)#1, every go pa.reloadConf passes its true edge, its false edge closes the path before the next iteration."
+	c.Explain = "E3: H = {F | `clone.F = newPathConf.F` in core.pathConfCanBeUpdated}; consumers: Forward → (*forward.Manager).ReloadConf(newConf.Forward) in path.doReloadConf; Record* → fields compared `newConf.F != oldConf.F` in path.doReloadConf (set equality with H∩Record*); RPICamera* → fields read in rpicamera.(*cameraParams).fromConf, which the camera run loop calls on params.ReloadConf (linux/arm); any other member of H except Name/Regexp is a violation. E1/E5 on pathManager.doReloadConf. groups_equal: G(m) = m[1:] if len(m) > 1, else none; every entry→return path of core.captureGroupsEqual (helpers inlined) is enumerated with interval bounds on len($0), len($1); a constant true needs both ≤ 1 (or a positive slices.Equal test), a constant false needs exactly one side ≥ 2 (or a negative test), any other result must be slices.Equal(a, b) with a, b ∈ {$k[1:], empty under len($k) ≤ 1} for k = 0 and 1; groups_equal.use: the call in doReloadConf compares pa.matches with FindPathConf(...)#1, every go pa.reloadConf passes its true edge, its false edge closes the path before the next iteration. idle_close: P = least set of `func (*path) X() bool` methods whose every true return passes an edge !($0.conf.Regexp == nil) or T(q($0)), q ∈ P; every request for idle collection - found by role: the channel from which pathManager.run receives the path it hands to doClosePath, the methods that send their *path parameter on it, and every call (static or through the pathParent interface) of a method with their name, with path argument x (whole module, helpers inlined) - must be dominated on all entry paths by !(x.conf.Regexp == nil) or T(q(x)), q ∈ P. NOT decided: that a path which fell back from a static to a regexp configuration is eventually collected (the converse direction)."
 	c.Assume = []string{"conf.FindPathConf resolves names correctly (C14)", "the external camera process applies the parameters it is sent"}
+
+	// ---- idle collection only of paths that currently run with a regexp configuration (prop_r4_c15.go)
+	c15IdleCloseR4(c, p)
 
 	// ---- H
 	fd, pk := p.FuncDecl("internal/core", "", "pathConfCanBeUpdated")
